@@ -154,6 +154,19 @@ def work_convert(x):
     return ('done', x)
 
 
+EXIT_CB = []          # (begin|end, pid) of the slow exit callback below
+
+
+def slow_exit_cb(pid, status):
+    """An embedder's on_process_exit callback that takes a while."""
+    import time
+    from vmc import vos
+    me = vos.cur_pid()
+    EXIT_CB.append(('begin', me))
+    time.sleep(0.5)
+    EXIT_CB.append(('end', me))
+
+
 def work_swallow(x):
     """Swallows whatever interrupts it -- including the SystemExit of a
     termination signal -- and returns normally."""
